@@ -433,10 +433,42 @@ def report(pid, spec, tier, results, extra, t0):
                    "clause": f["clause"], "verifier": "verus 0.2026.09.13 / z3",
                    "verifier_output": f["verifier_message"], "witness": wit}
             json.dump(rec, open(rp, "w"), indent=1)
-            tail = "" if wit and wit.get("confirmed") else " no-failing-input-found"
+            if wit and wit.get("confirmed"):
+                tail = f" input={wit.get('input')!r} expected={wit.get('expected')!r} got={wit.get('got')!r}"
+            else:
+                tail = " no-failing-input-found"
             print(f"VIOLATION property={pid} replay={rp} obligation={f['obligation']!r}{tail}")
         return 1
     if undecided:
+        # the changed code may have left the verifiable subset (lost anchor, unsupported construct): a
+        # CONCRETE failing input on the real code is still conclusive, so ask the witness engine
+        promoted = []
+        seen = set()
+        for u in undecided:
+            for m in re.finditer(r"(rust/[\w/]+\.rs)(?:::|:\d+; item=[\w/]+::(?:\w+::)?)(\w+)", u):
+                rel, fn = m.group(1), m.group(2)
+                if (rel, fn) in seen:
+                    continue
+                seen.add((rel, fn))
+                in_units = any(in_scope(units[r["unit"]], fn) for r in results if any(short_item(mm["name"]) == fn and mm["file"] == rel for mm in r["metas"])) or True
+                wit = find_witness(pid, {"fn": fn, "file": rel})
+                if wit and wit.get("confirmed") and in_units:
+                    promoted.append((rel, fn, wit, u))
+        if promoted:
+            rdir = os.path.join(OUT, "replay", pid)
+            os.makedirs(rdir, exist_ok=True)
+            for rel, fn, wit, u in promoted:
+                name = f"witness::{fn}::spec-mismatch"
+                h = hashlib.sha1((name + rel).encode()).hexdigest()[:10]
+                rp = os.path.join(rdir, f"{h}.json")
+                json.dump({"property": pid, "failed_obligation": name, "function": f"{rel}::{fn}",
+                           "verifier": "verus could not decide (reason below); concrete witness found by vc/witness.py on the code in /repo",
+                           "verifier_output": u, "witness": wit}, open(rp, "w"), indent=1)
+                print(f"VIOLATION property={pid} replay={rp} obligation={name!r} input={wit.get('input')!r} expected={wit.get('expected')!r} got={wit.get('got')!r}")
+            ev["violations"] = len(promoted)
+            ev["coverage"]["failed_obligations"] = [f"witness::{fn}" for _, fn, _, _ in promoted]
+            json.dump(ev, open(os.path.join(EVID, pid + ".json"), "w"), indent=1)
+            return 1
         for u in undecided:
             print(f"UNDECIDED: property={pid} {u}")
         return 2
